@@ -80,3 +80,5 @@ func (o *Out) Linef(format string, a ...any) { o.Line(fmt.Sprintf(format, a...))
 func (o *Out) Close() { o.w.Flush(); o.f.Close() }
 
 func bigOf(v int64) *big.Int { return big.NewInt(v) }
+
+func (r *Rng) PickS(xs ...string) string { return xs[r.Intn(len(xs))] }
